@@ -121,7 +121,10 @@ func (SlidingWindow) New(cfg Config) fiber.Handler {
 			// Lock entry
 			mux.Lock()
 			e = manager.get(key)
-			e.currHits--
+			// the entry may have expired while the handler ran: never count below zero
+			if e.currHits > 0 {
+				e.currHits--
+			}
 			remaining++
 			manager.set(key, e, cfg.Expiration)
 			// Unlock entry
